@@ -31,28 +31,28 @@ import numpy as np
 from harness import importers as I
 from harness.core import MachineryError
 
-INVS = ['ParseFormat', 'FormatParse', 'LookupFrame', 'NameRoundTrip', 'MeadowsAssoc', 'MneShape', 'DmShape',
+INVS = ['ParseFormat', 'FormatParse', 'LookupFrame', 'LayoutFrame', 'NameRoundTrip', 'MeadowsAssoc', 'MneShape', 'DmShape',
         'SpmLaws']
 WORKERS = 12
 
 
 def cfg(sections, *, vals='BidsValsM', emitmod=40, stims='{3, 4}', maxrdm=2, vols='{10, 40}', spmruns=2,
-        spmpats='{1, 2}', spmemit=1):
+        spmpats='{1, 2}', spmemit=1, ldepth=2, lemit=1):
     secs = '{' + ', '.join(f'"{s}"' for s in sections) + '}'
     return '\n'.join([
         'CONSTANTS', f'  Sections = {secs}', f'  BidsVals <- {vals}', '  DescArgs <- DescArgsM',
         '  SufArgs <- SufArgsM', f'  EmitMod = {emitmod}', f'  StimSizes = {stims}', f'  MaxRdm = {maxrdm}',
         f'  VolSet = {vols}', f'  SpmMaxRuns = {spmruns}', f'  SpmPats = {spmpats}', f'  SpmEmitMod = {spmemit}',
-        '  NumWords <- NumWordsM', '  PetWords <- PetWordsM', '  AdjWords <- AdjWordsM',
+        f'  LayoutDepth = {ldepth}', f'  LayoutEmitMod = {lemit}', '  NumWords <- NumWordsM', '  PetWords <- PetWordsM', '  AdjWords <- AdjWordsM',
         '  TaskWords <- TaskWordsM', '  ExpWords <- ExpWordsM', '  VerWords <- VerWordsM',
         '  StructWords <- StructWordsM', 'INIT Init', 'NEXT Next'] +
-        [f'INVARIANT {i}' for i in INVS] + ['INVARIANT Emit', 'CHECK_DEADLOCK FALSE']) + '\n'
+        [f'INVARIANT {i}' for i in INVS] + ['INVARIANT Emit', 'INVARIANT EmitDone', 'CHECK_DEADLOCK FALSE']) + '\n'
 
 
 TRACE_CFG = '\n'.join([
     'CONSTANTS', '  Sections <- Empty', '  BidsVals <- NoVals', '  DescArgs <- Empty', '  SufArgs <- Empty',
     '  EmitMod = 1', '  StimSizes <- Empty', '  MaxRdm = 1', '  VolSet <- Empty', '  SpmMaxRuns = 1',
-    '  SpmPats <- Empty', '  SpmEmitMod = 1', '  NumWords <- NumWordsT', '  PetWords <- PetWordsT',
+    '  SpmPats <- Empty', '  SpmEmitMod = 1', '  LayoutDepth = 0', '  LayoutEmitMod = 1', '  NumWords <- NumWordsT', '  PetWords <- PetWordsT',
     '  AdjWords <- Empty', '  TaskWords <- Empty', '  ExpWords <- Empty', '  VerWords <- Empty',
     '  StructWords <- Empty', 'SPECIFICATION TSpec', 'CHECK_DEADLOCK FALSE']) + '\n'
 
@@ -67,7 +67,8 @@ def _replay_chunk(args):
         key = None
         if nontriv:
             rec = json.loads(line)
-            key = json.dumps([sec, rec.get('e') or rec.get('i')], sort_keys=True)
+            key = json.dumps([sec, rec.get('e') or rec.get('i') or
+                              [[st['f'], st['kind']] for st in rec.get('hist', [])]], sort_keys=True)
         res.append((sec, n, out, key, line if out else None))
     return res
 
@@ -112,6 +113,8 @@ def _record_chunk(args):
         try:
             if kind == 'bids':
                 evs.append(I.record_bids(rng, I.Lexer()))
+            elif kind == 'layout':
+                evs.append(I.record_layout(rng))
             elif kind == 'meadows':
                 evs.append(I.record_meadows(rng, root, f'{seed}_{j}', list(PETNAMES)))
             elif kind == 'mne':
@@ -129,7 +132,8 @@ def _record_chunk(args):
 CLAUSE_KEY = {
     ('bids', 'format'): 'C20/a/format', ('bids', 'parse'): 'C20/a/parse/trace', ('bids', 'roundtrip'): 'C20/a/parse/trace',
     ('bids', 'reformat'): 'C20/a/format', ('bids', 'namedescs'): 'C20/d/bids-filename',
-    ('bids', 'lookup'): 'C20/b/lookup/trace',
+    ('bids', 'lookup'): 'C20/b/lookup/trace', ('layout', 'lookup'): 'C20/b/lookup/history/trace',
+    ('layout', 'files'): 'C20/a/format', ('dm', 'masklen'): 'C20/e/design/mask-length',
     ('meadows', 'name'): 'C20/c/name/trace', ('meadows', 'conds'): 'C20/c/conds/trace',
     ('meadows', 'values'): 'C20/c/values/trace', ('meadows', 'assoc'): 'C20/c/values/trace',
     ('meadows', 'participant'): 'C20/c/participant/trace', ('meadows', 'task'): 'C20/c/task/trace',
@@ -227,10 +231,11 @@ def run(ctx):
                        'SPM filter bases are orthonormal (scaled integer Householder columns)']
     if thorough:
         runs = [('bids', ['bids'], dict(emitmod=20), 2, 0),
+                ('layout', ['layout'], dict(ldepth=3, lemit=40), 8, 0),
                 ('rest', ['meadows', 'mne', 'dm', 'spm'],
                  dict(stims='{3, 4}', maxrdm=3, vols='{10, 25, 40}', spmruns=3, spmpats='{1, 2, 3}', spmemit=6), 0, 5)]
     else:
-        runs = [('all', ['bids', 'meadows', 'mne', 'dm', 'spm'], dict(spmemit=1), 8, 7)]
+        runs = [('all', ['bids', 'layout', 'meadows', 'mne', 'dm', 'spm'], dict(spmemit=1), 8, 7)]
     ctx.exhaustive = True
     totals = {}
     for name, secs, kw, fs_every, mat_every in runs:
@@ -244,7 +249,7 @@ def run(ctx):
         for rec in r.iter_emitted():
             if rec['sec'] not in seen and (rec.get('valid', True) and rec.get('loadable', True)):
                 seen.add(rec['sec'])
-                ctx.sample({k: rec[k] for k in rec if k not in ('looks',)}, cap=8)
+                ctx.sample({k: rec[k] for k in rec if k not in ('looks', 'files', 'paths')}, cap=8)
             if len(seen) == len(secs):
                 break
         per = replay_all(ctx, r, name, fs_every, mat_every)
@@ -256,6 +261,7 @@ def run(ctx):
         if missing:
             raise MachineryError(f'no vectors replayed for sections {missing}')
         chains = {'bids': ['BidsFormat', 'BidsParse', 'BidsLookup'], 'bids/outside': ['BidsReject'],
+                  'layout': ['LayoutLookup'],
                   'meadows': ['MeadowsName', 'MeadowsLoad'], 'mne': ['MneMap'], 'dm': ['DmBuild'],
                   'spm': ['SpmFilter']}
         for s, acts in chains.items():
@@ -268,7 +274,7 @@ def run(ctx):
     ctx.extra['vectors_replayed'] = {s: {'vectors': v[0], 'calls_compared': v[1]} for s, v in totals.items()}
     # implementation -> specification
     ntr = 60 if thorough else 12
-    n = record_and_validate(ctx, {'bids': 3 * ntr, 'meadows': 2 * ntr, 'mne': ntr, 'dm': ntr, 'spm': 2 * ntr},
+    n = record_and_validate(ctx, {'bids': 3 * ntr, 'layout': 2 * ntr, 'meadows': 2 * ntr, 'mne': ntr, 'dm': ntr, 'spm': 2 * ntr},
                             6 if thorough else 4)
     ctx.extra['recorded_traces_validated'] = n
     selftest_binding(ctx)
